@@ -188,6 +188,16 @@ def oresp (impl : String) : P Verdict := do
   let out := if model.startsWith "ok" then "ok" else if h2CanParse data then model else "none-cannotparse"
   pure (verdict2 impl model spec kf s!"oresp:{blockTag frames}:{ctrlTag frames}:{ft}:{out}")
 
+/-- verdict for the sequence ops: the implementation output is `<after A> @@ <fresh instance>`; both must
+equal the model of a fresh parse (correspondence), and — independently of any model — they must equal
+each other (the specification: a message is decoded as by a fresh instance, whatever came before) -/
+def seqVerdict (impl model tag : String) : Verdict :=
+  match impl.splitOn " @@ " with
+  | [after, fresh] =>
+    { modelEq := after == model && fresh == model, specOk := some (after == fresh),
+      kf := [], tag := tag, model := model ++ " @@ " ++ model, spec := "after == fresh" }
+  | _ => { modelEq := false, specOk := none, kf := [], tag := tag, model := model, spec := "-" }
+
 /-- `C16.seq <A> <B>` — one `HttpProcessors`: `parse_request(A)` then `parse_request(B)`; the output
 is B's. Messages are independent (fresh HPACK context per parse). -/
 def seq (impl : String) : P Verdict := do
@@ -195,7 +205,16 @@ def seq (impl : String) : P Verdict := do
   let b ← bytes
   if !H1Rejects b then failure
   let model := modelOReq b
-  pure (verdict2 impl model none [] (if model == "none" then "seq:none" else "seq:ok"))
+  pure (seqVerdict impl model (if model == "none" then "seq:none" else "seq:ok"))
+
+/-- `C16.seqr <A> <B>` — one `HttpProcessors`: `parse_request(A)`, `parse_response(A)`, then
+`parse_response(B)`; the output is B's: the response path starts from an empty HPACK table too. -/
+def seqr (impl : String) : P Verdict := do
+  let _a ← bytes
+  let b ← bytes
+  if !H1Rejects b then failure
+  let model := modelOResp b
+  pure (seqVerdict impl model (if model == "none" then "seqr:none" else "seqr:ok"))
 
 /-- `C16.lang <value>` — `get_highest_quality_language` -/
 def langOp (impl : String) : P Verdict := do
@@ -235,6 +254,6 @@ def hpack (impl : String) : P Verdict := do
 
 def handlers : List (String × (String → P Verdict)) :=
   [("C16.preq", preq), ("C16.presp", presp), ("C16.oreq", oreq), ("C16.oresp", oresp), ("C16.seq", seq),
-   ("C16.lang", langOp), ("C16.hpack", hpack)]
+   ("C16.seqr", seqr), ("C16.lang", langOp), ("C16.hpack", hpack)]
 
 end Huginn.Drv.C16
